@@ -236,6 +236,44 @@ fn run(ctx: &mut Ctx) {
             }
         });
     }
+    // array literals against an annotated array type of another length, for element types that are checked item by
+    // item (numbers, strings, tuples, a generic instance, `dyn` - where every item is coerced): the literal's own length
+    // must reach the comparison (added after a seeded change that returned dyn-element literals at the expected type)
+    if ctx.mine(70_500) {
+        let head = "trait Show {\n    fn show(Self) -> string;\n}\nimpl Show for int32 {\n    fn show(self: int32) -> string { \"i\" }\n}\nimpl Show for bool {\n    fn show(self: bool) -> string { \"b\" }\n}\nenum Opt[T] { Som(T), Non }\n";
+        // (element type, three items)
+        let elems: [(&str, [&str; 3]); 6] = [
+            ("int32", ["1", "2", "3"]),
+            ("uint8", ["1u8", "2u8", "3u8"]),
+            ("string", ["\"a\"", "\"b\"", "\"c\""]),
+            ("(int32, bool)", ["(1, true)", "(2, false)", "(3, true)"]),
+            ("Opt[int32]", ["Opt::Som(1)", "Opt::Non", "Opt::Som(3)"]),
+            ("dyn Show", ["1", "true", "2"]),
+        ];
+        ctx.case("array-literal-lengths", |c| {
+            for (ety, items) in elems.iter() {
+                // well-typed control: declared length == item count
+                let good = format!("{}fn main() -> unit {{\n    let a: [{}; 3] = [{}, {}, {}];\n    ()\n}}\n", head, ety, items[0], items[1], items[2]);
+                if ir_monitor(c, "array-literal-lengths", &good) {
+                    c.count("array_length_controls_accepted", 1);
+                } else {
+                    c.violation(format!("well-typed-rejected:array-literal:{}", ety), format!("`let a: [{}; 3] = [..three items..]` is rejected", ety), json!({"source": good}));
+                }
+                for (declared, given) in [(3usize, 2usize), (1, 2), (2, 3), (4, 3)] {
+                    let lit = items[..given].join(", ");
+                    for (pos, body) in [
+                        ("annotated-let", format!("    let a: [{}; {}] = [{}];\n", ety, declared, lit)),
+                        ("call-argument", format!("    let _ = take([{}]);\n", lit)),
+                    ] {
+                        let take = format!("fn take(a: [{}; {}]) -> int32 {{ 0 }}\n", ety, declared);
+                        let bad = format!("{}{}fn main() -> unit {{\n{}    ()\n}}\n", head, take, body);
+                        let inj = inject::Injection { kind: "array-literal-length", description: format!("[{}; {}] given {} items ({})", ety, declared, given, pos) };
+                        check_injection(c, "array-literal-lengths", &bad, &inj);
+                    }
+                }
+            }
+        });
+    }
     // the closure product of C08 (body shape x capture kind x flow) under the IR monitors: an unbound captured
     // variable or a closure typed at its unlifted function type shows in ANF
     {
